@@ -62,7 +62,7 @@ def run(tier):
     quick = tier == "quick"
     models.check_gate_laws(ck, 2)
     configs = list(impl.SUPPORTED)
-    dist = distances(ck, L, configs, "{0, 1, 5}" if quick else "0..5", "ClassView", "3 cosets" if quick else "36 local choices")
+    dist = distances(ck, L, configs, "{0, 1, 5}" if quick else "{0, 1, 2, 3, 4, 5}", "ClassView", "3 cosets" if quick else "36 local choices")
     if not quick:
         d3 = distances(ck, L, configs, "{0, 1, 5}", "ClassView", "3 cosets")
         for cfgk in configs:
@@ -70,7 +70,7 @@ def run(tier):
                 raise MachineryError(f"3-coset reduction gives different distances on {cfgk}")
         ck.cov["coset_reduction_validated"] = True
     small = [c for c in configs if c[0] <= (3 if quick else 4)]
-    dg = distances(ck, L, small, "{0, 1, 5}" if quick else "0..5", "GroupView", "group level, no class quotient")
+    dg = distances(ck, L, small, "{0, 1, 5}" if quick else "{0, 1, 2, 3, 4, 5}", "GroupView", "group level, no class quotient")
     for cfgk in small:
         if {i: v[0] for i, v in dg[cfgk].items()} != {i: v[0] for i, v in dist[cfgk].items()}:
             raise MachineryError(f"class-level quotient gives different distances than the group-level BFS on {cfgk}")
